@@ -10,6 +10,7 @@ global size_of usize == 8;
 
 //@include preamble/xbitstr_opaque.rs
 //@include preamble/state_types.rs
+//@include preamble/lex_opaque.rs
 //@include spec/cell_specs.rs
 //@include spec/xmap_specs.rs
 
